@@ -779,18 +779,21 @@ def _format_italics(collection):
 
 
 def _remove_spaces_at_end_of_the_line(collection):
+    def strip_text_before(idx):
+        # the last text of the line may be followed by italics nodes
+        idx -= 1
+        while idx >= 0 and (collection[idx].sets_italics_on()
+                            or collection[idx].sets_italics_off()):
+            idx -= 1
+        if idx >= 0 and collection[idx].is_text_node() and collection[idx].text:
+            collection[idx].text = collection[idx].text.rstrip()
+
     for idx, node in enumerate(collection):
-        if (
-            idx > 0
-            and (node._type == _InstructionNode.BREAK
-                 or node.requires_repositioning())
-            and collection[idx - 1].is_text_node()
-            and collection[idx - 1].text
-        ):
-            collection[idx - 1].text = collection[idx - 1].text.rstrip()
+        if idx > 0 and (node._type == _InstructionNode.BREAK
+                        or node.requires_repositioning()):
+            strip_text_before(idx)
     # handle last node
-    if collection[-1].is_text_node():
-        collection[-1].text = collection[-1].text.rstrip()
+    strip_text_before(len(collection))
     return collection
 
 
